@@ -340,9 +340,31 @@ impl RHistory {
                     (v.get(1).and_then(|t| t.as_u64()), v.get(2).and_then(|t| t.as_u64()), v.get(3).and_then(|t| t.as_b()).map(|x| x.to_vec()))
                 };
                 let ids: Vec<u64> = self.world.server.as_ref().map(|s| s.verif_connection_ids()).unwrap_or_default();
-                let live: Vec<u64> = ids.into_iter().filter(|id| !self.is_disc(Ep::Srv(*id)) && Some(*id) != except).collect();
+                let live: Vec<u64> = ids.iter().copied().filter(|id| !self.is_disc(Ep::Srv(*id)) && Some(*id) != except).collect();
+                // C11: the broadcast is queued exactly once on every live connection but the excluded one, nowhere else
+                let mem_of = |h: &Self, id: u64, ch: u8| -> Option<(bool, usize)> {
+                    h.world.conn_ref(Ep::Srv(id)).and_then(|c| c.verif_send_memory().into_iter().find(|(c2, _, _)| *c2 == ch).map(|(_, _, mem)| (c.is_disconnected(), mem)))
+                };
+                let before: Vec<(u64, Option<(bool, usize)>)> = ids.iter().map(|id| (*id, ch.and_then(|ch| mem_of(self, *id, ch as u8)))).collect();
                 self.emit(op);
-                if let (Some(ch), Some(m)) = (ch, m) {
+                if let (Some(ch), Some(m)) = (ch, m.clone()) {
+                    if !self.res.panicked && !m.is_empty() {
+                        let cfg = self.world.server_cfg.clone();
+                        let chan = cfg.as_ref().and_then(|c| c.1.iter().find(|c| c.id as u64 == ch).cloned());
+                        for (id, b) in before {
+                            let a = mem_of(self, id, ch as u8);
+                            if let (Some((bd, bm)), Some((ad, am)), Some(chan)) = (b, a, chan.as_ref()) {
+                                let target = live.contains(&id);
+                                let dropped_unreliable = chan.ty == 0 && bm + m.len() > chan.max && am == bm;
+                                if target && !(ad || am == bm + m.len() || dropped_unreliable) {
+                                    self.violate("C11", format!("after a broadcast of {} bytes on channel {} the send channel of connected client {} holds {} bytes, before {}", m.len(), ch, id, am, bm));
+                                }
+                                if !target && (am != bm || ad != bd) {
+                                    self.violate("C11", format!("a broadcast on channel {} changed the connection of client {} which is {}", ch, id, if Some(id) == except { "the excluded one" } else { "disconnected" }));
+                                }
+                            }
+                        }
+                    }
                     for id in live {
                         self.record_send(Ep::Srv(id), ch as u8, &m);
                     }
@@ -461,13 +483,42 @@ impl RHistory {
             if was_disc {
                 self.violate("C12", format!("receive_message returned a message on a disconnected connection {:?}", e));
             }
-            self.mon(e).got.entry(ch).or_default().push(m);
+            self.mon(e).got.entry(ch).or_default().push(m.clone());
             self.feat("message_obtained");
             self.res.nontrivial = true;
+            self.check_cross_delivery(e, ch, &m);
             self.check_delivery(e, ch);
             true
         } else {
             false
+        }
+    }
+
+    /// C11: a message is obtained only on the connection and channel it was submitted for. Payloads of 4 bytes and more
+    /// are unique per history, so one that was not submitted by the peer on this channel but was submitted elsewhere
+    /// has crossed connections or channels.
+    fn check_cross_delivery(&mut self, e: Ep, ch: u8, m: &[u8]) {
+        if m.len() < 4 || self.mons.get(&e).map(|x| x.hostile_in).unwrap_or(false) {
+            return;
+        }
+        let peer = match self.pairs.get(&e) {
+            Some(p) => *p,
+            None => return,
+        };
+        let own = self.mons.get(&peer).and_then(|x| x.sent.get(&ch)).map(|v| v.iter().any(|x| x[..] == m[..])).unwrap_or(false);
+        if own {
+            return;
+        }
+        let mut origin: Option<(Ep, u8)> = None;
+        for (e2, mon) in self.mons.iter() {
+            for (ch2, msgs) in mon.sent.iter() {
+                if (*e2, *ch2) != (peer, ch) && msgs.iter().any(|x| x[..] == m[..]) {
+                    origin = Some((*e2, *ch2));
+                }
+            }
+        }
+        if let Some((e2, ch2)) = origin {
+            self.violate("C11", format!("{:?} obtained on channel {} a message that was submitted by {:?} on channel {} (its peer is {:?})", e, ch, e2, ch2, peer));
         }
     }
 
@@ -621,6 +672,15 @@ impl RHistory {
                 }
             }
         }
+        // C09: an unreliable send channel holds nothing after a flush: every queued message was sent or dropped
+        if !self.is_disc(e) {
+            let mem: Vec<(u8, bool, usize)> = self.world.conn_ref(e).map(|c| c.verif_send_memory()).unwrap_or_default();
+            for (ch, rel, bytes) in mem {
+                if !rel && bytes != 0 {
+                    self.violate("C09", format!("{:?} still accounts {} bytes on unreliable send channel {} after get_packets_to_send emptied its queue", e, bytes, ch));
+                }
+            }
+        }
     }
 
     fn deliver(&mut self, src: Ep, dst: Ep, index: Option<usize>, data: Vec<u8>, genuine: bool) {
@@ -661,9 +721,19 @@ impl RHistory {
                 self.mon(dst).unrel_last_slice.insert((channel_id, slice.message_id), clock);
             }
         }
+        // a second copy of a packet of reliable traffic that was already processed is ignored whatever the state of the channel
+        let duplicate_of_processed = genuine
+            && !was_disc
+            && !self.mons.get(&dst).map(|m| m.hostile_in).unwrap_or(false)
+            && index.and_then(|i| self.mons.get(&src).and_then(|m| m.outs.get(i)).map(|o| o.good_deliveries >= 1)).unwrap_or(false)
+            && matches!(decode_packet(&data), Ok(Packet::SmallReliable { .. }) | Ok(Packet::ReliableSlice { .. }));
         self.emit(&op);
         if self.res.panicked {
             return;
+        }
+        if duplicate_of_processed && self.is_disc(dst) {
+            let reason = self.world.conn_ref(dst).and_then(|c| c.disconnect_reason()).map(reason_tree).map(|t| t.to_text()).unwrap_or_default();
+            self.violate("C09", format!("{:?} was disconnected ({}) by a second copy of a packet of reliable traffic it had already processed", dst, reason));
         }
         if genuine && !was_disc {
             if let Some(i) = index {
@@ -749,6 +819,12 @@ impl RHistory {
                 let ngot = self.mons.get(&o).and_then(|m| m.got.get(&c.id)).map(|v| v.len()).unwrap_or(0);
                 self.feat("healed_channel_checked");
                 if ngot != nsent {
+                    if matches!(s, Ep::Srv(_)) || matches!(o, Ep::Srv(_)) {
+                        let n = self.world.server.as_ref().map(|sv| sv.verif_connection_ids().len()).unwrap_or(0);
+                        if n >= 2 {
+                            self.violate("C11", format!("traffic between {:?} and {:?} on channel {} did not complete on a healed network while the server holds {} connections: another client's state held it back", s, o, c.id, n));
+                        }
+                    }
                     self.violate(if c.ty == 1 { "C01" } else { "C02" }, format!("after the network healed (every packet delivered, ticks beyond resend_time, no progress left) {:?} obtained {} of the {} messages {:?} submitted on reliable channel {}", o, ngot, nsent, s, c.id));
                 }
             }
